@@ -31,6 +31,9 @@ vars == <<l, starts, outcome, derefReturned, doneTrue, cancTrue, cancelTrue, ski
           invDerefRet, invDoneTrue, invCancTrue, invCancelTrue, uncAfter>>
 
 F == [t \in Tids |-> FALSE]
+\* the scenario line k belongs to started with begin.val = 1
+BornDead(k) == \E b \in 1..k : /\ Trace[b].ev = "begin" /\ Trace[b].val = 1
+                                /\ \A j \in (b + 1)..k : Trace[j].ev # "begin"
 Init == /\ l = 1 /\ starts = 0 /\ outcome = "" /\ derefReturned = FALSE /\ doneTrue = FALSE /\ cancTrue = FALSE
         /\ cancelTrue = FALSE /\ skip = FALSE /\ nscen = 0
         /\ invDerefRet = F /\ invDoneTrue = F /\ invCancTrue = F /\ invCancelTrue = F /\ uncAfter = FALSE
@@ -52,8 +55,9 @@ Step ==
        ELSE starts' = 1 /\ l' = l + 1 /\ UNCHANGED <<outcome, derefReturned, doneTrue, cancTrue, cancelTrue, skip, nscen,
                                                      invDerefRet, invDoneTrue, invCancTrue, invCancelTrue, uncAfter>>
      ELSE IF e.ev = "end" THEN
-       \* exactly once; a body whose context was cancelled before its first form ran shows no effect
-       IF e.val > 1 \/ (e.val = 0 /\ ~cancelTrue) THEN Reject("P1: the body's effect was observed " \o ToString(e.val) \o " times")
+       \* exactly once; a body whose context was cancelled before its first form ran shows no effect -- nor does one
+       \* whose creator's context had ended before it started (begin.val = 1: the scenario ends that context first)
+       IF e.val > 1 \/ (e.val = 0 /\ ~cancelTrue /\ ~BornDead(l)) THEN Reject("P1: the body's effect was observed " \o ToString(e.val) \o " times")
        ELSE l' = l + 1 /\ UNCHANGED skip /\ Keep
      ELSE IF e.ev = "bodyctx" THEN
        \* P5 "changes nothing": the context of the body is cancelled only by a future-cancel that answered true
